@@ -145,6 +145,8 @@ type ctx struct {
 func instrumentPackage(p *packages.Package, overlay map[string]string) {
 	var globMutex, globRW []string
 	var registries, syncMaps []string
+	var reinits []string
+	reinitOf := map[*types.Var]string{}
 	for i, f := range p.Syntax {
 		path := p.CompiledGoFiles[i]
 		if strings.HasSuffix(path, "_test.go") {
@@ -189,6 +191,70 @@ func instrumentPackage(p *packages.Package, overlay map[string]string) {
 		if err := (&printer.Config{Mode: printer.UseSpaces | printer.TabIndent, Tabwidth: 8}).Fprint(&buf, p.Fset, f); err != nil {
 			fatal(2, "print %s: %v", path, err)
 		}
+		// one re-initialisation function per package-level var specification, appended to the file that
+		// declares it (its imports are in scope there); VerifResetAll calls them in initialization order
+		for _, d := range f.Decls {
+			gd, ok := d.(*ast.GenDecl)
+			if !ok || gd.Tok != token.VAR {
+				continue
+			}
+			for _, sp := range gd.Specs {
+				vs := sp.(*ast.ValueSpec)
+				var names []string
+				skip := true
+				for _, n := range vs.Names {
+					names = append(names, n.Name)
+					if n.Name != "_" {
+						skip = false
+					}
+					if obj := p.TypesInfo.Defs[n]; obj != nil {
+						if ts := obj.Type().String(); ts == "sync.Mutex" || ts == "sync.RWMutex" {
+							skip = true // their model state is reset by the runtime; the global marking must survive
+						}
+						// the class registries stay warm (VerifReset empties them for the first-use programs): with cold
+						// registries every execution would consist mostly of class registrations
+						if strings.HasSuffix(n.Name, "Class") {
+							if mt, isMap := obj.Type().Underlying().(*types.Map); isMap && types.IsInterface(mt.Elem()) {
+								skip = true
+							} else if obj.Type().String() == "sync.Map" {
+								skip = true
+							}
+						}
+					}
+				}
+				if skip {
+					continue
+				}
+				fn := fmt.Sprintf("verifReinit%d", len(reinits))
+				var body bytes.Buffer
+				pr := func(n ast.Node) string {
+					var bb bytes.Buffer
+					(&printer.Config{Mode: printer.UseSpaces | printer.TabIndent, Tabwidth: 8}).Fprint(&bb, p.Fset, n)
+					return bb.String()
+				}
+				switch {
+				case len(vs.Values) == 0:
+					for _, n := range names {
+						if n != "_" {
+							fmt.Fprintf(&body, "\t{\n\t\tvar zero %s\n\t\t%s = zero\n\t}\n", pr(vs.Type), n)
+						}
+					}
+				default:
+					var vals []string
+					for _, v := range vs.Values {
+						vals = append(vals, pr(v))
+					}
+					fmt.Fprintf(&body, "\t%s = %s\n", strings.Join(names, ", "), strings.Join(vals, ", "))
+				}
+				fmt.Fprintf(&buf, "\nfunc %s() {\n%s}\n", fn, body.String())
+				for _, n := range vs.Names {
+					if obj, ok := p.TypesInfo.Defs[n].(*types.Var); ok {
+						reinitOf[obj] = fn
+					}
+				}
+				reinits = append(reinits, fn)
+			}
+		}
 		rel, _ := filepath.Rel(*repoDir, path)
 		out := filepath.Join(*outDir, "instr", rel)
 		os.MkdirAll(filepath.Dir(out), 0o755)
@@ -220,6 +286,33 @@ func instrumentPackage(p *packages.Package, overlay map[string]string) {
 	for _, r := range syncMaps {
 		fmt.Fprintf(&b, "\t%s.Clear()\n", r)
 		st.Registries = append(st.Registries, p.Name+"."+r)
+	}
+	fmt.Fprintf(&b, "}\n")
+	// VerifResetAll: every package-level variable gets its initial value again - variables without an
+	// initializer first, then the initializers in the package's initialization order
+	fmt.Fprintf(&b, "\nfunc init() { _vrt.RegisterFullReset(VerifResetAll) }\n\n// VerifResetAll puts the package-level state of this package back to what it is when the process starts.\nfunc VerifResetAll() {\n")
+	called := map[string]bool{}
+	inOrder := map[string]bool{}
+	for _, in := range p.TypesInfo.InitOrder {
+		for _, v := range in.Lhs {
+			if fn := reinitOf[v]; fn != "" {
+				inOrder[fn] = true
+			}
+		}
+	}
+	for _, fn := range reinits {
+		if !inOrder[fn] {
+			fmt.Fprintf(&b, "\t%s()\n", fn)
+			called[fn] = true
+		}
+	}
+	for _, in := range p.TypesInfo.InitOrder {
+		for _, v := range in.Lhs {
+			if fn := reinitOf[v]; fn != "" && !called[fn] {
+				fmt.Fprintf(&b, "\t%s()\n", fn)
+				called[fn] = true
+			}
+		}
 	}
 	fmt.Fprintf(&b, "}\n")
 	dir := filepath.Dir(p.CompiledGoFiles[0])
